@@ -11,11 +11,15 @@
    canonical spelling of names of accepted patches (NameSafety.keys_are_different_files), as the HashMap of the
    implementation is keyed by Path, whose equality goes by components.
    PARTIAL: reject files, backups under .pc and .pc/applied-patches are written with create/append on
-   possibly existing files (they are not tree files); the hard-link observation itself is made on the
-   binary by the check. *)
+   possibly existing files (they are not tree files).  Hard links: the operation log is given its POSIX meaning
+   on names and inodes (HardLinks.v) - the log of every save phase is truthful (each unlink finds its name, each
+   create's flag says whether the name was bound: C15_log_is_truthful), and under that meaning every name no patch
+   of the range resolves to - a link in a cp -al twin, an unnamed file of the tree - keeps its inode, and the
+   inode its bytes and mode, whatever is written (C15_push_keeps_links); that the kernel implements this meaning
+   is observed on the binary by the check, not proved. *)
 From Coq Require Import List ZArith NArith Bool.
 Import ListNotations.
-From RQ Require Import Base Apply Parser Quilt QuiltProofs TreeRollback FreshInode SavedTree.
+From RQ Require Import Base Apply Parser Quilt QuiltProofs TreeRollback FreshInode SavedTree HardLinks.
 
 Theorem C15_one_file :
   forall dm k m cl fs fs' r,
@@ -55,3 +59,45 @@ Proof. intros P H. apply (H (OpUnlink [[1%N]])). left. reflexivity. Qed.
 
 Example C15_in_place_is_excluded : forall P, ~ all_ops [OpCreate [[1%N]] true] P.
 Proof. intros P H. destruct (H (OpCreate [[1%N]] true) (or_introl eq_refl)) as [_ Hx]. discriminate Hx. Qed.
+
+(* names and inodes.  The log added by any save phase, under every fault position, replays on the names alone:
+   no unlink of an unbound name, no create whose flag differs from whether the name was bound *)
+Theorem C15_log_is_truthful :
+  forall dm ov cl fs fs' r, save_all dm ov cl fs = (fs', r) ->
+  exists added, fs_log fs' = fs_log fs ++ added /\ nrun (fnames fs) added = Some (fnames fs').
+Proof. exact save_all_tracks. Qed.
+Print Assumptions C15_log_is_truthful.
+
+(* the twin: for every assignment of inode numbers to the names of the tree (two names may share one: hard links)
+   and whatever bytes and modes the creates write, a name that no patch of the pushed range resolves to is bound
+   to the same inode after the save phase and that inode is untouched *)
+Theorem C15_push_keeps_links :
+  forall cfg db series fs fs1 st n rejs dm cl fs2 r,
+  is_file fs [] = false ->
+  apply_series cfg db {| a_applied := []; a_files := [] |} 0 series fs = (fs1, ROk (st, n, rejs)) ->
+  save_all dm (a_files st) cl fs1 = (fs2, r) ->
+  exists added, fs_log fs2 = fs_log fs1 ++ added /\
+    forall s ds t i,
+      bounded s -> inames s = fnames fs1 ->
+      ilookup t (i_names s) = Some i ->
+      ~ In t (map (fun e => normalize (fst e)) (a_files st)) ->
+      ilookup t (i_names (irun s added ds)) = Some i /\ i_node (irun s added ds) i = i_node s i.
+Proof. exact push_keeps_links. Qed.
+Print Assumptions C15_push_keeps_links.
+
+(* the general statement about logs, and why the flag matters: an in-place create reaches the twin *)
+Theorem C15_twin_intact :
+  forall P ops s ds l' t i,
+  bounded s -> ilookup t (i_names s) = Some i ->
+  nrun (inames s) ops = Some l' -> all_ops ops P -> ~ P t ->
+  ilookup t (i_names (irun s ops ds)) = Some i /\ i_node (irun s ops ds) i = i_node s i.
+Proof. exact twin_intact. Qed.
+Print Assumptions C15_twin_intact.
+
+Example C15_in_place_changes_twin :
+  let s := {| i_names := [([[102%N]], 5%N); ([[116%N]; [102%N]], 5%N)];
+              i_node := fun _ => {| i_data := [97%N]; i_mode := 420%N |}; i_next := 6%N |} in
+  let s' := irun s [OpCreate [[102%N]] true] (fun _ => {| i_data := [98%N]; i_mode := 420%N |}) in
+  nrun (inames s) [OpCreate [[102%N]] true] <> None /\
+  ilookup [[116%N]; [102%N]] (i_names s') = Some 5%N /\ i_data (i_node s' 5%N) = [98%N].
+Proof. exact in_place_changes_twin. Qed.
